@@ -12,11 +12,18 @@
 From Teleport Require Import Base.Bytes Base.Outcome Model.Auth.
 
 (** * Part A *)
+(** What `CallPacket(cctx, "onRecvPacket", packet)` + `UnpackIntoInterface` did when the harness ran them
+    itself, with the real keeper and the real byte code, on a discarded branch of the state right after
+    the tabulated PacketKeeper.RecvPacket (NOT read off the acknowledgement the message server wrote):
+    the call returned an error / returned data that decodes to (code, result, message) or does not
+    decode / panicked. *)
+Inductive cbfact := CfFailed | CfRet (r : option (N * bytes * bytes)) | CfPanic.
+
 Record facts := {
   f_clients : list (bytes * client);   (* every chain name of the case's universe that has a client *)
   f_self : bytes;                      (* GetChainName *)
   f_lower : nat;                       (* class of the tabulated lower-layer call: 0 ok, 1 error, 2 panic *)
-  f_cb : N * bytes * bytes             (* (code, result, message) the destination callback produced (from the observed ack) *)
+  f_cb : cbfact                        (* the tabulated destination callback (CfRet None where it was not run) *)
 }.
 
 Fixpoint assoc {A} (l : list (bytes * A)) (k : bytes) : option A :=
@@ -40,7 +47,11 @@ Section Inst.
        self_chain := f_self;
        lo_update := fun d _ _ => of_class (f_lower d) d;
        lo_recv := fun d _ => of_class (f_lower d) d;
-       lo_callback := fun d _ => CbReturned facts d (Some (f_cb d));
+       lo_callback := fun d _ => match f_cb d with
+                                 | CfFailed => CbFailed facts d
+                                 | CfRet r => CbReturned facts d r
+                                 | CfPanic => CbPanic facts
+                                 end;
        lo_write_ack := fun d _ _ => Ok d;
        lo_ack := fun d _ => of_class (f_lower d) d;
        lo_set_status := fun d _ => Ok d;
@@ -122,12 +133,26 @@ Definition model_class (ct : list (bytes * bytes)) (bt : list (bytes * bool)) (s
 Definition new_wack (before after : mstate) : option (wack) :=
   if (length (wlog _ before) <? length (wlog _ after))%nat then last (map Some (wlog _ after)) None else None.
 
-Definition wack_matches (w : option wack) (o : option (bytes * bytes * N * ack)) : bool :=
+(** [errtext] = the acknowledgement is one of the two ERROR acknowledgements the message server builds itself
+    (callback failed as a whole / destination unknown): its Message is a Go string literal — error TEXT, which
+    the correspondence does not compare (a reworded message is a harmless rewrite); code, result, Relayer and
+    fee option are compared in every branch, and the Message too wherever it comes from the callback. *)
+Definition wack_matches (errtext : bool) (w : option wack) (o : option (bytes * bytes * N * ack)) : bool :=
   match w, o with
   | None, None => true
   | Some w, Some (src, dst, seq, a) =>
-      bytes_eqb (w_src w) src && bytes_eqb (w_dst w) dst && (w_seq w =? seq)%N && ack_eqb (w_ack w) a
+      bytes_eqb (w_src w) src && bytes_eqb (w_dst w) dst && (w_seq w =? seq)%N &&
+      (if errtext
+       then ack_eqb (mk_ack (ack_code (w_ack w)) (ack_result (w_ack w)) [] (ack_relayer (w_ack w)) (ack_fee (w_ack w)))
+                    (mk_ack (ack_code a) (ack_result a) [] (ack_relayer a) (ack_fee a))
+       else ack_eqb (w_ack w) a)
   | _, _ => false
+  end.
+
+Definition err_ack_branch (f : facts) (k : akind) : bool :=
+  match k with
+  | KRecv _ _ dst _ _ => negb (bytes_eqb dst (f_self f)) || match f_cb f with CfFailed => true | _ => false end
+  | _ => false
   end.
 
 (** ** Model vs implementation.  Kinds: 1 outcome class differs, 2 registry differs,
@@ -152,7 +177,7 @@ Fixpoint cmp_steps (ct : list (bytes * bytes)) (bt : list (bytes * bool)) (i : n
       if negb (Nat.eqb c (os_class o)) then [(i, 1%nat)] else
       let s' := fst (mstep ct bt s (op_of (os_kind o))) in
       if negb (rdump_eqb (rdump_of (reg _ s')) (os_reg o)) then [(i, 2%nat)] else
-      if negb (wack_matches (new_wack s s') (os_ack o)) then [(i, 3%nat)] else
+      if negb (wack_matches (err_ack_branch (os_facts o) (os_kind o)) (new_wack s s') (os_ack o)) then [(i, 3%nat)] else
       if match os_payee o with
          | Some p => negb (Nat.eqb c 0) || match payee_of ct bt s (os_kind o) with Some q => negb (bytes_eqb p (canon_f ct q)) | None => true end
          | None => false end
@@ -167,6 +192,83 @@ Fixpoint number {A} (i : nat) (l : list A) : list (nat * A) :=
 
 Definition mismatches (hs : list hist) : list (nat * (nat * nat)) :=
   flat_map (fun ih => map (fun m => (fst ih, m)) (cmp_hist (snd ih))) (number 0 hs).
+
+
+(** ** Which branch of the model a step takes (for the measured input distribution of the evidence
+    only — no theorem depends on it).  Codes:
+    update: 100 accepted, 101 signer's record does not list the chain, 102 no client, 103 CheckMsg (TSS signer),
+            104 lower layer rejected, 105 lower layer panicked
+    recv:   201 TSS signer mismatch, 202 lower layer rejected, 203 lower layer panicked, 204 Addresses[i] out of range,
+            205 signer's record does not list the source, 210 ack: callback failed as a whole, 211 ack: callback code 0,
+            212 ack: callback code <> 0, 213 callback result undecodable, 214 callback panicked,
+            215 ack: destination chain unknown, 216 relayed onwards (no ack)
+    ack:    300 accepted on the source chain (status, payout, callback), 301 TSS signer mismatch, 302 lower layer
+            rejected / panicked, 303 acknowledgement undecodable, 304 all-zero acknowledgement, 305 accepted on a
+            relay chain, 306 reverse look-up out of range, 307 ack.Relayer does not resolve, 308 payee not bech32
+    reg:    400 new record, 401 rejected by ValidateBasic, 402 empty address (panic), 403 record replaced *)
+Definition step_branch (ct : list (bytes * bytes)) (bt : list (bytes * bool)) (r : registry) (f : facts) (k : akind) : nat :=
+  match k with
+  | KGov a cs ads | KRaw a cs ads =>
+      let gov := match k with KGov _ _ _ => true | _ => false end in
+      if gov && negb (validate_basic (bech_f bt) a cs ads) then 401%nat else
+      match a with
+      | [] => 402%nat
+      | _ => match reg_get r a with Some _ => 403%nat | None => 400%nat end
+      end
+  | KUpdate chain signer =>
+      if negb (auth_relayer r chain signer) then 101%nat else
+      match assoc (f_clients f) chain with
+      | None => 102%nat
+      | Some c => if negb (check_msg (canon_f ct) c signer) then 103%nat else
+                  match f_lower f with 0%nat => 100%nat | 1%nat => 104%nat | _ => 105%nat end
+      end
+  | KRecv signer src dst seq fee =>
+      if negb (tss_signer_ok facts unit unit unit lower_inst f src signer) then 201%nat else
+      match f_lower f with
+      | 1%nat => 202%nat
+      | S (S _) => 203%nat
+      | 0%nat =>
+          match other_chain_addr r src signer with
+          | Panic => 204%nat
+          | Err | Ok None => 205%nat
+          | Ok (Some _) =>
+              if bytes_eqb dst (f_self f) then
+                match f_cb f with
+                | CfFailed => 210%nat
+                | CfRet (Some (code, _, _)) => if (code =? 0)%N then 211%nat else 212%nat
+                | CfRet None => 213%nat
+                | CfPanic => 214%nat
+                end
+              else match assoc (f_clients f) dst with None => 215%nat | Some _ => 216%nat end
+          end
+      end
+  | KAck signer src dst seq oa =>
+      if negb (tss_signer_ok facts unit unit unit lower_inst f dst signer) then 301%nat else
+      match f_lower f with
+      | S _ => 302%nat
+      | 0%nat =>
+          match oa with
+          | None => 303%nat
+          | Some a =>
+              if ack_is_zero a then 304%nat else
+              if negb (bytes_eqb src (f_self f)) then 305%nat else
+              match teleport_addr ascii_fold_eq r dst (ack_relayer a) with
+              | Panic => 306%nat
+              | Err | Ok None => 307%nat
+              | Ok (Some p) => if bech_f bt p then 300%nat else 308%nat
+              end
+          end
+      end
+  end.
+
+Fixpoint br_steps (ct : list (bytes * bytes)) (bt : list (bytes * bool)) (r : registry) (l : list ostep) : list nat :=
+  match l with
+  | [] => []
+  | o :: l' => step_branch ct bt r (os_facts o) (os_kind o) :: br_steps ct bt (reg_of (os_reg o)) l'
+  end.
+
+Definition branches (hs : list hist) : list nat :=
+  flat_map (fun h => br_steps (h_canon h) (h_bech h) [] (h_steps h)) hs.
 
 (** ** Monitor: the property itself on the implementation's observed trace, with its
     own vocabulary (does not call the model's handlers).  The registry used is the one
@@ -354,3 +456,49 @@ Definition undemonstrated (l : list cobs) : list nat :=
 Definition abi_classified (nonview : list (nat * bytes)) : bool :=
   forallb (fun cm => negb (Nat.eqb (classify (fst cm) (snd cm)) 2)) nonview
   && forallb (fun e => Nat.eqb (snd e) 3 || existsb (same_method (fst e)) nonview) classification.
+
+(** ** The calls the chain's own modules make into the system contracts (inventory regenerated from the Go
+    source by tools/gotocoq/modcalls): a call whose target is the packet contract is made FROM the xibc packet
+    module address, a call whose target is the endpoint contract FROM the aggregate module address (the two
+    callers the byte code accepts, see part B), every method the modules call there exists in the ABI inventory
+    and is a privileged method of [classification] or a view; CallPacket itself is such a call from the packet
+    module address to the packet contract; the two module accounts are different accounts. *)
+Definition mc_pkt_from : bytes := B "x/xibc/core/packet/types.ModuleAddress".
+Definition mc_agg_from : bytes := B "x/aggregate/types.ModuleAddress".
+Definition mc_pkt_target (t : bytes) : bool :=
+  bytes_eqb t (B "&syscontracts/xibc_packet.PacketContractAddress") || bytes_eqb t (B "syscontracts/xibc_packet.PacketContractAddress").
+Definition mc_ep_target (t : bytes) : bool :=
+  bytes_eqb t (B "&syscontracts/xibc_endpoint.EndpointContractAddress") || bytes_eqb t (B "syscontracts/xibc_endpoint.EndpointContractAddress").
+
+Definition modcall := (bytes * bytes * nat * bytes * bytes * list bytes)%type.
+
+Definition mc_method_ok (views : list (nat * bytes)) (c : nat) (m : bytes) : bool :=
+  Nat.eqb (classify c m) 1 || existsb (same_method (c, m)) views.
+
+Definition modcall_ok (views : list (nat * bytes)) (e : modcall) : bool :=
+  let '(_, _, kind, from, target, methods) := e in
+  match kind with
+  | 0%nat => forallb (mc_method_ok views 0%nat) methods                       (* CallPacket(ctx, "method", ...) *)
+  | _ =>
+      if mc_pkt_target target then bytes_eqb from mc_pkt_from && forallb (mc_method_ok views 0%nat) methods
+      else if mc_ep_target target then bytes_eqb from mc_agg_from && forallb (mc_method_ok views 1%nat) methods
+      else true                                                               (* token contracts etc.: not C06's *)
+  end.
+
+Definition modcalls_ok (views : list (nat * bytes)) (calls : list modcall) (addrs : list (bytes * bytes)) : bool :=
+  forallb (modcall_ok views) calls
+  && existsb (fun e : modcall => let '(_, fn, kind, from, target, _) := e in
+                Nat.eqb kind 1 && bytes_eqb fn (B "CallPacket") && bytes_eqb from mc_pkt_from && mc_pkt_target target) calls
+  && match addrs with
+     | [(p1, n1); (p2, n2)] => negb (bytes_eqb n1 n2) && negb (bytes_eqb n1 []) && negb (bytes_eqb n2 [])
+     | _ => false
+     end.
+
+(** the privileged methods the Go modules actually exercise (for the evidence) *)
+Definition mc_exercised (calls : list modcall) : list (nat * bytes) :=
+  flat_map (fun e : modcall => let '(_, _, kind, _, target, methods) := e in
+              match kind with
+              | 0%nat => map (fun m => (0%nat, m)) methods
+              | _ => if mc_pkt_target target then map (fun m => (0%nat, m)) methods
+                     else if mc_ep_target target then map (fun m => (1%nat, m)) methods else []
+              end) calls.
